@@ -3,13 +3,15 @@
 # Usage: tools/seed_matrix.sh [extra "<seed> <check>" pairs file]
 cd /verif
 out=seeded/RESULTS.tsv
-echo -e "seed\tcheck\texit\tviolations\tseconds\tfirst_violation" > $out
-for d in seeded/C*-*/; do
+pat="${1:-C*-*}"
+if [ "$pat" = "C*-*" ]; then echo -e "seed\tcheck\texit\tviolations\tseconds\tfirst_violation" > $out; fi
+for d in seeded/$pat/; do
   s=$(basename $d); p=${s%-*}
   checks="$p"
   case $s in
     C02-1) checks="C02 C17";; C03-1|C06-1|C07-1) checks="$p C07";; C10-2) checks="C10 C09 C16";; C01-1|C15-1) checks="$p C01";;
     C08-2|C03-2) checks="$p C03 C08";; C05-2) checks="C05 C08";; C19-1) checks="C19 C17";; C02-2) checks="C02 C15";;
+    C15-3) checks="C15 C09";; C13-4) checks="C13 C19 C11";; C10-4|C08-4) checks="$p C03";; C03-4|C02-4|C05-3) checks="$p C01";;
   esac
   checks=$(echo $checks | tr ' ' '\n' | sort -u | tr '\n' ' ')
   tools/seed_run.sh $d/patch.diff quick $checks | while read line; do
